@@ -206,6 +206,15 @@ ROUND13 = {
     'C17': " Round 13: '#rgb' and '#rrggbb' colours mean what they say, six-digit colours with leading zero bytes included (table by partial evaluation).",
 }
 
+# obligations added in round 14
+ROUND14 = {
+    'C06': " Round 14: the sets of the other sources are dropped on a newer id whatever their connection state (share of C01.R2).",
+    'C08': " Round 14: MQ's adapter hands every exit announcement on to the filter's handler; what exit(reason, exc) raises is let through by the main loop's handler also with LOOP_EXC off.",
+    'C09': " Round 14: the image header of a topic message is built from that topic's own frame (no table kept across topics).",
+    'C12': " Round 14: the pattern that finds user-given ports finds the port behind any credentials (table); a metrics output without a port, or on an ipc address, is reserved.",
+    'C14': " Round 14: what read() has not handed out stays in the file (share of C13.R15 / R7); every path of tell() answers with a position.",
+}
+
 NOT_APPLICABLE = {
     'C11': 'Every clause is an equality between values computed by string parsing over an unbounded grammar; there is no renderer to pair with the parsers and the only structural facts in reach are already caught by the existing test_normalize_config tests, so a static proxy would detect nothing new (DESIGN.md §5).',
 }
@@ -220,7 +229,7 @@ def main():
         if pid not in reg:
             continue
         tech, text, ref, nd = CLAIMS[pid]
-        text += ROUND6.get(pid, '') + ROUND7.get(pid, '') + ROUND8.get(pid, '') + ROUND9.get(pid, '') + ROUND10.get(pid, '') + ROUND11.get(pid, '') + ROUND12.get(pid, '') + ROUND13.get(pid, '')
+        text += ROUND6.get(pid, '') + ROUND7.get(pid, '') + ROUND8.get(pid, '') + ROUND9.get(pid, '') + ROUND10.get(pid, '') + ROUND11.get(pid, '') + ROUND12.get(pid, '') + ROUND13.get(pid, '') + ROUND14.get(pid, '')
         checks.append({
             'property_id': pid,
             'quick_cmd': f'./check {pid} --tier quick',
